@@ -285,7 +285,7 @@ class WriterHist(Engine):
         except BuildError:
             raise
         except Exception as ex:
-            ctx.probe("discarded-unbuildable-world:" + type(ex).__name__)
+            ctx.probe("discarded-unbuildable-world:" + type(ex).__name__ + ":" + str(ex)[:70])
             return False
         try:
             w = PDDLWriter(p)
